@@ -6,6 +6,7 @@ import (
 	"os/exec"
 	"path/filepath"
 	"regexp"
+	"strconv"
 	"strings"
 
 	"github.com/mmcloughlin/avo/attr"
@@ -280,6 +281,34 @@ func c11(c *Ctx) {
 			}
 			if found != 1 {
 				o.Plan.GoViolations = append(o.Plan.GoViolations, GoViolation{Key: "print:globl-count", Desc: fmt.Sprintf("case %d: data section %s is declared %d times", idx, gl.Symbol.Name, found), Replay: map[string]any{"file": g.Desc, "text": string(out)}})
+			}
+		}
+		// every function has one TEXT line carrying its frame size and argument size
+		for _, sec := range g.F.Sections {
+			fnSec, ok := sec.(*ir.Function)
+			if !ok {
+				continue
+			}
+			found := 0
+			for _, ln := range strings.Split(string(out), "\n") {
+				if !strings.HasPrefix(ln, "TEXT \u00b7"+fnSec.Name+"(SB)") {
+					continue
+				}
+				found++
+				m := textFrameRe.FindStringSubmatch(ln)
+				frame, args := int64(-1), int64(0)
+				if m != nil {
+					frame, _ = strconv.ParseInt(m[1], 10, 64)
+					if m[2] != "" {
+						args, _ = strconv.ParseInt(m[2], 10, 64)
+					}
+				}
+				if frame != int64(fnSec.FrameBytes()) || args != int64(fnSec.ArgumentBytes()) {
+					o.Plan.GoViolations = append(o.Plan.GoViolations, GoViolation{Key: "print:text-sizes", Desc: fmt.Sprintf("case %d: function %s has frame %d and arguments %d but is declared as %q", idx, fnSec.Name, fnSec.FrameBytes(), fnSec.ArgumentBytes(), ln), Replay: map[string]any{"file": g.Desc, "text": string(out)}})
+				}
+			}
+			if found != 1 {
+				o.Plan.GoViolations = append(o.Plan.GoViolations, GoViolation{Key: "print:text-count", Desc: fmt.Sprintf("case %d: function %s has %d TEXT lines", idx, fnSec.Name, found), Replay: map[string]any{"file": g.Desc, "text": string(out)}})
 			}
 		}
 		// the assembler accepts the text, and sees the same number of instructions per function
